@@ -9,7 +9,7 @@ evidence writing disabled so that evidence always describes the unchanged
 tree), and the patch is undone straight afterwards (`git -C /repo checkout --
 .`).  The outcome is written to seeded/<id>/result.json and summarised in
 seeded/RESULTS.json.  Nothing is ever committed to /repo."""
-import json, os, subprocess, sys
+import json, os, re, subprocess, sys
 HERE = os.path.dirname(os.path.dirname(os.path.abspath(__file__)))
 REPO = '/repo'
 
@@ -42,7 +42,9 @@ def run_one(sid, props):
                                stdout=subprocess.PIPE, stderr=subprocess.STDOUT, text=True)
             lines = [l for l in c.stdout.splitlines()
                      if l.endswith(']') and ': R' in l and 'VIOLATION' not in l and not l.startswith('[')]
-            out['checks'][p] = {'exit': c.returncode, 'reports': lines[:6]}
+            m = re.search(r'obligations=(\d+) discharged=(\d+)', c.stdout)
+            out['checks'][p] = {'exit': c.returncode, 'reports': lines[:6],
+                                'obligations': int(m.group(1)) if m else None}
             if c.returncode == 1:
                 out['caught_by'].append(p)
             elif c.returncode != 0:
@@ -55,10 +57,23 @@ def run_one(sid, props):
     return out
 
 
+def baseline(props):
+    """obligation counts on the unchanged tree"""
+    env = dict(os.environ, YRSA_NO_EVIDENCE='1')
+    out = {}
+    for p in props:
+        c = subprocess.run([os.path.join(HERE, 'check'), p, '--tier', 'quick'], env=env,
+                           stdout=subprocess.PIPE, stderr=subprocess.STDOUT, text=True)
+        m = re.search(r'obligations=(\d+) discharged=(\d+)', c.stdout)
+        out[p] = int(m.group(1)) if m else None
+    return out
+
+
 def main():
     ids = sys.argv[1:] or sorted(x for x in os.listdir(os.path.join(HERE, 'seeded'))
                                  if os.path.exists(os.path.join(HERE, 'seeded', x, 'patch.diff')))
     props = claimed()
+    base = baseline(props)
     summary = {}
     p = os.path.join(HERE, 'seeded', 'RESULTS.json')
     if os.path.exists(p):
@@ -83,6 +98,12 @@ def main():
                 if v['exit'] != 0:
                     for l in (v['reports'][:3] or [v.get('tail', '')[-200:]]):
                         print('    %s: %s' % (k, l[:260]))
+            lost = ['%s %s->%s' % (k, base.get(k), v.get('obligations')) for k, v in o.get('checks', {}).items()
+                    if v.get('obligations') is not None and base.get(k) is not None and
+                    v['obligations'] < base[k]]
+            if lost:
+                print('    fewer obligations than on the unchanged tree: ' + ', '.join(lost))
+            summary[sid]['fewer_obligations'] = lost
             continue
         print('SEEDED %-10s property=%s caught_by=%s%s' % (
             sid, own, ','.join(o.get('caught_by', [])) or '-',
